@@ -73,6 +73,12 @@ func (s Str) Len() int {
 }
 func (s Str) Concrete() bool { return s.B == nil }
 
+// NumTok is the text of one float as produced by strconv.AppendFloat(_, f,
+// 'g', -1, 64): an opaque token occupying one byte cell. By strconv's
+// contract it consists of characters from [0-9+-.eE] (for finite f) and
+// ParseFloat maps it back to exactly f.
+type NumTok struct{ F *smt.Term }
+
 // rangeIter is the state of a Range instruction.
 type rangeIter struct {
 	m    *MapV
@@ -459,11 +465,20 @@ func (x *Exec) equal(t types.Type, a, b Value) *smt.Term {
 	c := x.C
 	switch av := a.(type) {
 	case *smt.Term:
+		if _, isTok := b.(NumTok); isTok {
+			return c.False()
+		}
 		bv := b.(*smt.Term)
 		if av.Sort.K == smt.KF64 {
 			return c.FEq(av, bv)
 		}
 		return c.Eq(av, bv)
+	case NumTok:
+		bv, ok := b.(NumTok)
+		if !ok {
+			return c.False() // a number token is no punctuation or letter
+		}
+		return c.Eq(c.FBits(av.F), c.FBits(bv.F))
 	case Str:
 		bv := b.(Str)
 		if av.Len() != bv.Len() {
